@@ -317,4 +317,4 @@ func TestEnum(t *testing.T) {
 	core.Extra("c20/roundtrip", "non_integer_types", other)
 }
 
-func TestReplay(t *testing.T) { core.Replay(t, jsonCheck, addrCheck, envelopeCheck) }
+func TestReplay(t *testing.T) { core.Replay(t, jsonCheck, addrCheck, envelopeCheck, concurrentCheck) }
